@@ -85,6 +85,21 @@ class _Adv(object):
         return a
 
 
+class _Blank(_Adv):
+    """the same filer pressing Enter wherever a blank answer is acceptable and the base return does not care"""
+
+    def answer(self, inp, name=None):
+        import fnmatch
+        n = name or inp.name()
+        b = self.base
+        if n not in b._exact and not any(fnmatch.fnmatchcase(n, p) for p, _ in b._pat) and inp.valid(''):
+            return ''
+        return _Adv.answer(self, inp, name=name)
+
+
+POLICY = {'adv': _Adv, 'blank': _Blank}
+
+
 def write_template(path, year, requested, values):
     import argparse, contextlib, io
     out = io.StringIO()
@@ -208,8 +223,8 @@ def session(year, base, start, k, kind, halfset=None):
 
 
 def _work(arg):
-    year, bname, start, k, kind, halfset = arg
-    base = _Adv(e3.base_by_name(bname, year))
+    year, bname, start, k, kind, halfset = arg[:6]
+    base = POLICY[arg[6] if len(arg) > 6 else 'adv'](e3.base_by_name(bname, year))
     errs, info = session(year, base, start, k, kind, halfset)
     return errs, info
 
@@ -229,33 +244,38 @@ def run(tier):
                      'EOF, unsupported form reached after k answers, a line definition raising after k answers, Ctrl-C arriving while a line is being computed after k answers}; then a second run; '
                      'distinct = (year, base, start, kind, k) sessions in which the interruption actually happened')
     if tier == 'quick':
-        sel = [(2023, 'B0-single-wage'), (2023, 'B6-nc'), (2022, 'B4-schedule1'), (2021, 'B0-single-wage')]
+        sel = [(2023, 'B0-single-wage', 'adv'), (2023, 'B6-nc', 'adv'), (2022, 'B4-schedule1', 'adv'), (2021, 'B0-single-wage', 'adv'),
+               (2022, 'B4-schedule1', 'blank'), (2023, 'B0-single-wage', 'blank')]
         starts = ['none', 'half', 'template']
     else:
-        sel = [(y, b.name) for y in (2021, 2022, 2023) for b in e3.bases_for(y)]
+        sel = [(y, b.name, 'adv') for y in (2021, 2022, 2023) for b in e3.bases_for(y)] + \
+              [(y, bn, 'blank') for y in (2021, 2022, 2023) for bn in ('B0-single-wage', 'B4-schedule1', 'B6-nc', 'B2-investor')]
         starts = ['none', 'empty', 'half', 'template']
     items = []
-    for year, bname in sel:
-        base = _Adv(e3.base_by_name(bname, year))
+    for year, bname, pol in sel:
+        base = POLICY[pol](e3.base_by_name(bname, year))
         P, half = plan(year, base)
         for start in starts:
             p = P - len(half) if start in ('half', 'template') else P
             for kind in KINDS:
+                if pol == 'blank' and kind not in ('ctrl-c', 'eof', 'line-raises'):
+                    continue
                 for k in range(p + 1):
-                    items.append((year, bname, start, k, kind, half if start in ('half', 'template') else None))
-        run.extra.setdefault('sessions_planned', {})[f'{year}/{bname}'] = dict(prompts=P, half=len(half))
+                    items.append((year, bname, start, k, kind, half if start in ('half', 'template') else None, pol))
+        run.extra.setdefault('sessions_planned', {})[f'{year}/{bname}/{pol}'] = dict(prompts=P, half=len(half))
     items = runner.rotate(items, run.seed)
     n = hit = 0
     for it, (errs, info) in zip(items, runner.pmap(_work, items)):
         n += 1
-        year, bname, start, k, kind, _ = it
+        year, bname, start, k, kind, _, pol = it
         if info.get('interrupted'):
             hit += 1
         run.count('sessions:' + kind)
         if info.get('exc'):
             run.count('first_run_exit:' + info['exc'][0])
         for ekind, m in errs:
-            run.violation(f'C20|{kind}|{ekind}|{year}|{bname}|{start}', dict(engine='session', year=year, base=bname, start=start, k=k, kind=kind), f'k={k}: {m}')
+            run.violation(f'C20|{kind}|{ekind}|{year}|{bname}|{start}' + ('' if pol == 'adv' else '|' + pol),
+                          dict(engine='session', year=year, base=bname, start=start, k=k, kind=kind, policy=pol), f'k={k}: {m}')
     run.evaluations = 2 * n
     run.distinct_n = hit
     run.count('sessions', n)
@@ -269,7 +289,7 @@ def run(tier):
 
 
 def replay(case):
-    base = _Adv(e3.base_by_name(case['base'], case['year']))
+    base = POLICY[case.get('policy', 'adv')](e3.base_by_name(case['base'], case['year']))
     P, half = plan(case['year'], base)
     errs, info = session(case['year'], base, case['start'], case['k'], case['kind'], half if case['start'] in ('half', 'template') else None)
     return (not errs), (str(errs[:1]) if errs else f'passes {info}')
